@@ -30,7 +30,10 @@ PROP = {
         "thorough": {"gen": [(60000, 8)], "enum": [(4,)]},
     }],
     "keys": ["read-*", "readall-*", "write-*", "writeall-*", "peer-received-*", "bytebuffer.writeto", "bytebuffer.readfrom",
-             "bytebuffer.asyncwriteto", "bytebuffer.asyncreadfrom", "xfer.*"],
+             "bytebuffer.asyncwriteto", "bytebuffer.asyncreadfrom", "xfer.*",
+             # bytes received into the buffer (ReadFrom / AsyncReadFrom / Claim) and not yet committed or read must survive the
+             # save-area calls made meanwhile unchanged: a Discard that shifts them wrongly loses / duplicates stream bytes
+             "bytebuffer.discard", "bytebuffer.discardall"],
     "secondary_keys": ["read-count-*", "read-success-*", "readall-*", "write-count-*", "write-success-*", "writeall-*", "peer-received-*"],
     "rule": LOOP_RULE + "; payloads are position-dependent (byte i of the stream to object k is (7i+13k+1) mod 251, byte j of write op id "
                         "is (11j+17id+3) mod 251) so a lost, duplicated, reordered or invented byte is visible at the first wrong offset; plus the "
